@@ -38,7 +38,7 @@ class docstrings (not from the code):
    survives as itself (weaker reading: nodes inside replaced sub-trees and one-to-many keys are exempt).
 
 Not judged (counted as `unspecified`): a key with a single-node replacement that is met while a masked
-transformer is switched off (the two documented rules conflict); keys that have an equal-by-value duplicate
+transformer is switched off (the two documented rules conflict); keys / start / stop nodes that have an equal-by-value duplicate
 in the tree when `inplace=True` (the in-place update mutates the key object, so whether the later duplicate
 still matches is an accident of hashing).
 """
@@ -420,8 +420,21 @@ def mirror(o):
     def ml(body):
         if not isinstance(body, tuple):
             return (BAD('LIST-' + type(body).__name__),)
-        return tuple(mirror(c) if not isinstance(c, (tuple, list)) else (EMPTYTUPLE if _is_empty_nest(c) else BAD('tuple'))
+        return tuple(mirror(c) if not isinstance(c, (tuple, list)) else (EMPTYTUPLE if _is_empty_nest(c) else nest(c))
                      for c in body)
+
+    def nest(c):
+        # a tuple inside a body (never legal): keep its flattened content so that it can be compared modulo nesting
+        flat = []
+
+        def walk(x):
+            for y in x:
+                if isinstance(y, (tuple, list)):
+                    walk(y)
+                else:
+                    flat.append(mirror(y))
+        walk(c)
+        return ('NEST', None, (tuple(flat),), ())
     t = type(o)
     try:
         if t is ir.Assignment:
@@ -509,8 +522,19 @@ def without_empty_case_bodies(m):
 
 
 def drop_empty_tuples(m):
-    """RC4 seen from the result side: bodies that contain (nested) empty tuples"""
-    return (m[0], m[1], tuple(tuple(drop_empty_tuples(c) for c in l if c != EMPTYTUPLE) for l in m[2]), m[3])
+    """RC4 seen from the result side: bodies that contain nested tuples (empty ones vanish, others are spliced)"""
+    lists = []
+    for l in m[2]:
+        out = []
+        for c in l:
+            if c == EMPTYTUPLE:
+                continue
+            if c[0] == 'NEST':
+                out.extend(drop_empty_tuples(x) for x in c[2][0])
+            else:
+                out.append(drop_empty_tuples(c))
+        lists.append(tuple(out))
+    return (m[0], m[1], tuple(lists), m[3])
 
 
 SIG_RC1 = ('result: visit_tuple strips the empty bodies of a MultiConditional, its `values` and `bodies` no longer line up '
@@ -520,7 +544,7 @@ SIG_RC2 = ('exception:RecursionError: NestedMaskedTransformer with a Conditional
 SIG_RC3 = ('NestedMaskedTransformer treats an Associate with MaskedTransformer.visit_ScopedNode instead of as an InternalNode '
            '(empty Associate kept, Associate dropped although a child is kept, associations leak into the parent body -> '
            'ValidationError); the same tree with a Section instead passes')
-SIG_RC4 = ('result: a body updated in place (Associate, or any node with inplace=True) keeps the nested empty tuples that a '
+SIG_RC4 = ('result: a body updated in place (Associate, or any node with inplace=True) keeps the nested tuples that a '
            'switched-off child returns; bodies are no longer flat tuples of nodes')
 FIXED = (SIG_RC1, SIG_RC2, SIG_RC3, SIG_RC4)
 
@@ -565,11 +589,13 @@ def execute(case, classify=True):
             mapper[key] = tuple(key if x == kv else mk(x, fresh=True) for x in ts[1])
     del objs[len(pnodes):]
     inplace = bool(case.get('inplace'))
-    if inplace and M:
-        # in-place updates legitimately mutate the key object itself (e.g. its source status), after which equal-by-value
-        # duplicates met later no longer compare equal to it: by-value matching of duplicates is not defined under inplace
+    if inplace:
+        # in-place updates legitimately mutate the key / start / stop object itself (e.g. its source status), after which
+        # equal-by-value duplicates met later no longer compare equal to it: by-value matching of duplicates is not
+        # defined under inplace
         vals = [val(n) for n in pnodes]
-        if any(vals.count(kv) > 1 for kv in M):
+        marked = list(M) + [vals[p] for p in (case.get('start') or []) + (case.get('stop') or [])]
+        if any(vals.count(v) > 1 for v in marked):
             return ('unspecified', None, '', ())
     kwargs = dict(mapper=mapper, inplace=inplace, invalidate_source=bool(case.get('invalidate_source', True)))
     proot = pnodes[0]
@@ -942,7 +968,7 @@ def config(quick):
     return dict(FULL, maxn=3, isrc_maxn=2,
                 T=dict(maxn=3, maxn2=3, skip2=('relabel',)), N=dict(maxn=3, maxn2=3),
                 M=dict(maxn=3, subset=2, subset_maxn=2, map_maxn=2, inplace=True),
-                extra4=dict(leaves=('a', 'b'), internals=('L', 'X', 'C', 'M'), n=4,
+                extra4=dict(leaves=('a', 'b'), internals=('L', 'X', 'C'), n=4,
                             T=dict(maxn=4, maxn2=0), N=dict(maxn=4, maxn2=0)))
 
 
@@ -1005,7 +1031,7 @@ def run(ctx):
         'NestedTransformer is only judged on None and relabelled-copy handles (its documented use); other handle shapes are '
         'outside the enumerated space',
         'a single-node replacement met while a masked transformer is switched off is not judged (documentation conflict)',
-        'with inplace=True a key that has an equal-by-value duplicate in the tree is not judged',
+        'with inplace=True a key / start / stop node that has an equal-by-value duplicate in the tree is not judged',
         'source objects are not compared (invalidate_source only selects the code path)',
     ]
 
